@@ -18,6 +18,7 @@ import KotoVerif.Lemmas.C15Utf8
 import KotoVerif.Lemmas.C15Slice
 import KotoVerif.Lemmas.C15Ops
 import KotoVerif.Lemmas.C15Closed
+import KotoVerif.Lemmas.C15Refine
 import KotoVerif.Lemmas.C15Fmt
 
 namespace KotoVerif.C15
@@ -320,6 +321,47 @@ theorem trim_spec (U : UFacts) (s : Bytes) :
   ⟨trimStartB_spec U s, trimEndB_spec U s⟩
 
 example : trimB UFacts.trivial [32, 0x61, 0xC3, 0xA9, 32, 10] = [0x61, 0xC3, 0xA9] := by decide
+
+/-! ## The code-level operations compute the byte-level definitions
+
+The driver runs the `KStr`-level functions (offsets into the shared buffer, `with_bounds(..).unwrap()`);
+the laws above are about the byte-level functions. These theorems connect the two for every well-formed
+string in every storage form — in particular no `unwrap()` of these call sites can fail. -/
+
+/-- `chars()`: repeated `pop_front` yields the grapheme segmentation -/
+theorem chars_refines (U : UFacts) (hp : Progress U.gFirst) (hb : CutsAtBoundaries U.gFirst) {s : KStr}
+    (hw : s.WF) : ∃ ts : List KStr, charsLoop U (s.len + 1) s = some ts ∧
+      ts.map KStr.bytes = segs U.gFirst (s.len + 1) s.bytes := by
+  have h := charsLoop_refines U hp hb (s.len + 1) s hw
+  cases hr : charsLoop U (s.len + 1) s with
+  | none => rw [hr] at h; cases h
+  | some ts => rw [hr] at h; exact ⟨ts, rfl, by simpa using h⟩
+
+/-- `split(pattern)`: the iterator yields `splitB` -/
+theorem split_refines {s : KStr} (hw : s.WF) {pat : Bytes} (hpv : validUtf8 pat = true) (hp : pat ≠ []) :
+    ∃ ts : List KStr, splitLoop s pat (s.len + 2) 0 = some ts ∧
+      ts.map KStr.bytes = splitB pat (s.len + 2) s.bytes := splitOp_refines hw hpv hp
+
+/-- `lines()`: the iterator yields `linesB` -/
+theorem lines_refines {s : KStr} (hw : s.WF) :
+    ∃ ts : List KStr, linesLoop s (s.len + 1) 0 = some ts ∧ ts.map KStr.bytes = linesB s.bytes [] := by
+  have h := linesLoop_refines hw (s.len + 1) 0 (Nat.zero_le _) (by omega) (isBoundary_zero _)
+  cases hr : linesLoop s (s.len + 1) 0 with
+  | none => rw [hr] at h; cases h
+  | some ts => rw [hr] at h; exact ⟨ts, rfl, by simpa using h⟩
+
+/-- `trim()`, `trim_start()`, `trim_end()` -/
+theorem trim_refines (U : UFacts) {s : KStr} (hw : s.WF) :
+    trimOp U s none = .str (trimB U s.bytes) ∧ trimStartOp U s none = .str (trimStartB U s.bytes) ∧
+    trimEndOp U s none = .str (trimEndB U s.bytes) :=
+  ⟨trimOp_refines U hw, trimStartOp_refines U hw, trimEndOp_refines U hw⟩
+
+/-- `strip_prefix(p)` -/
+theorem strip_prefix_refines {s : KStr} (hw : s.WF) {pat : Bytes} (hp : validUtf8 pat = true) :
+    stripPrefixOp s pat = if pat.isPrefixOf s.bytes then .str (s.bytes.drop pat.length) else .null :=
+  stripPrefixOp_refines hw hp
+
+example : strBytes (trimOp UFacts.trivial (KStr.ofSlice [120, 32, 0x61, 32, 121] 1 4) none) = some [0x61] := by decide
 
 /-! ## Formatting -/
 
